@@ -271,9 +271,6 @@ func classifyMember(cfg Config, raw []byte) Member {
 		}
 	}
 	_ = hasError
-	if cfg.AllowPush && cfg.MaybeCallback != nil && m.HasID && cfg.MaybeCallback(m.IDText) && !(m.Method != "" && !hasResult && !errorNonNull) {
-		m.DontCare = "may be taken for the reply to a server callback with this id"
-	}
 	if !hasVersion {
 		m.Defects = append(m.Defects, "version missing")
 	}
@@ -283,6 +280,11 @@ func classifyMember(cfg Config, raw []byte) Member {
 	}
 	isRequest := m.Method != "" && !replyFields
 
+	if len(m.Defects) != 0 && cfg.AllowPush && cfg.MaybeCallback != nil && m.HasID && cfg.MaybeCallback(m.IDText) && !isRequest && !(m.Method != "" && !hasResult && !errorNonNull) {
+		// a defective member that is not request-shaped: consumed as the reply
+		// to that callback while it is outstanding, answered with an error otherwise
+		m.DontCare = "may be taken for the reply to a server callback with this id"
+	}
 	if len(m.Defects) != 0 {
 		m.Class, m.Reply, m.Codes = Invalid, ErrorReply, invalidCodes
 		if cfg.AllowPush && m.Method == "" && replyFields {
